@@ -613,7 +613,7 @@ func main() {
 	runner.Main(runner.Spec{
 		ID:    "C06",
 		Level: "exploration",
-		Rule: "explicit list: IKNP extension (label form, malicious label form, packed-bit form) for EVERY batch size 1..N x Delta bit0 in {0,1} x choice vectors {all-0, all-1, alternating both phases, every single-1 position for small n, LFSR}; 2- and 3-batch histories on one instance over sizes {1,8,63,64,65,512,513}; COT/ROT (semi-honest, malicious, shared re-init) over an ideal base OT; Chou-Orlandi and its pure helpers on 4 curves; RSA-1024. " +
+		Rule: "explicit list: IKNP extension (label form, malicious label form, packed-bit form) for EVERY batch size 1..N x Delta bit0 in {0,1} x choice vectors {all-0, all-1, alternating both phases, every single-1 position for small n, LFSR}; 2- and 3-batch histories on one instance over sizes {1,8,63,64,65,512,513}; COT/ROT (semi-honest, malicious, shared re-init) over an ideal base OT; Chou-Orlandi and its pure helpers on 4 curves; RSA-1024; result buffers that are not fresh (every bit set on entry) for every variant; randomness sources with short reads. " +
 			"distinct_nontrivial = distinct (variant, n mod 8, n mod 64, chunk count, partial chunk, pattern) classes that ran to a checked result",
 		Assumptions: []string{
 			"typed in-memory message link (memio) instead of p2p.Conn: the byte-stream layer is C11's subject",
